@@ -18,6 +18,9 @@ type c03Case struct {
 	Cfg   CfgLit   `json:"config"`
 	Debug bool     `json:"debug"`
 	Req   vlib.Req `json:"request"`
+	// Prev != nil: the middleware is created with Prev, serves Req once, is then reconfigured to Cfg and serves
+	// Req again; the invariants are checked on the second response (state left behind by earlier calls)
+	Prev *CfgLit `json:"previous_config,omitempty"`
 }
 
 var safelistedResponseHeaders = map[string]bool{"cache-control": true, "content-language": true, "content-length": true, "content-type": true, "expires": true, "last-modified": true, "pragma": true}
@@ -136,11 +139,22 @@ func c03Invariants(l CfgLit, req vlib.Req, h http.Header, status int) *vlib.Fail
 }
 
 func c03Judge(k c03Case) *vlib.Failure {
-	m, err := cors.NewMiddleware(k.Cfg.Config())
+	first := k.Cfg
+	if k.Prev != nil {
+		first = *k.Prev
+	}
+	m, err := cors.NewMiddleware(first.Config())
 	if err != nil {
 		return vlib.Failf("configuration of the C03 alphabet rejected: %v", err)
 	}
 	m.SetDebug(k.Debug)
+	if k.Prev != nil {
+		m.Wrap(http.HandlerFunc(func(http.ResponseWriter, *http.Request) {})).ServeHTTP(vlib.NewRec(), k.Req.HTTP())
+		cfg := k.Cfg.Config()
+		if err := m.Reconfigure(&cfg); err != nil {
+			return vlib.Failf("configuration of the C03 alphabet rejected by Reconfigure: %v", err)
+		}
+	}
 	rec := vlib.NewRec()
 	m.Wrap(http.HandlerFunc(func(http.ResponseWriter, *http.Request) {})).ServeHTTP(rec, k.Req.HTTP())
 	return c03Invariants(k.Cfg, k.Req, rec.H, rec.Status)
@@ -218,7 +232,7 @@ func checkC03(c *vlib.Ctx) (string, string) {
 					c.Nontrivial.Add(1)
 				}
 				if f := c03Invariants(bs[bi].lit, req, rec.H, rec.Status); f != nil {
-					k := c03Case{bs[bi].lit, d == 1, req}
+					k := c03Case{Cfg: bs[bi].lit, Debug: d == 1, Req: req}
 					if jf := vlib.Guard(func() *vlib.Failure { return c03Judge(k) }); jf != nil {
 						ck.Report(k, jf)
 					} else {
@@ -253,7 +267,7 @@ func checkC03(c *vlib.Ctx) (string, string) {
 		for _, r := range shapes(v) {
 			try(rec, r)
 		}
-		c.SampleAt(i+1, func() any { return c03Case{cfgs[1], false, shapes(v)[1]} })
+		c.SampleAt(i+1, func() any { return c03Case{Cfg: cfgs[1], Req: shapes(v)[1]} })
 	})
 	c.States.Add(total)
 	// (A') junk in front of an allowed suffix: P2 . Sigma^{<=n} . S2 (what a `*.` pattern must not swallow)
@@ -329,6 +343,28 @@ func checkC03(c *vlib.Ctx) (string, string) {
 		try(rec, vlib.Req{Method: methods[ix[2]], Hdr: hdr})
 	})
 	c.States.Add(prod.Count())
+	// (C) history: previous configuration (a broad credentialed one, and each configuration of the alphabet),
+	// one request, Reconfigure, the same request again
+	broad := CfgLit{Origins: []string{"https://*.b:*", "http://*.b:*", "https://*.a:*", "https://a.b", "https://b:*", "http://1.2.3.4:*", "http://[::1]:*", "ab://*.c:*", "ab://c"}, Credentialed: true, TolInsecure: true, TolPSL: true, Methods: []string{"*"}, RequestHeaders: []string{"*"}, ResponseHeaders: []string{"X-Broad"}, MaxAge: 77, PNA: true}
+	prevs := append([]CfgLit{broad}, cfgs...)
+	var histReqs []vlib.Req
+	for _, v := range append(append([]string{}, structured...), "https://xa.b", "https://x.a.b", "https://y.x.a.b:8", "https://evil.b", "https://b.a:9", "http://x.b", "http://1.2.3.4:9", "http://[::1]:8", "ab://x.c", "https://a.b:8443", "https://a.b") {
+		if len(v) > 4096 {
+			continue
+		}
+		histReqs = append(histReqs, shapes(v)[:4]...)
+	}
+	hp := vlib.Product{Sizes: []int{len(prevs), len(cfgs), 2, len(histReqs)}}
+	c.ParRange(hp.Count(), 64, "C03 history", func(i int64) {
+		var tmp [4]int
+		ix := hp.At(i, tmp[:0])
+		prev := prevs[ix[0]]
+		k := c03Case{Cfg: cfgs[ix[1]], Debug: ix[2] == 1, Req: histReqs[ix[3]], Prev: &prev}
+		c.Transitions.Add(3)
+		ck.Try(k)
+	})
+	c.States.Add(hp.Count())
+	c.Set("history_sequences", hp.Count())
 	c.Set("origin_family", map[string]any{"prefixes": prefixes, "sigma": sigma, "max_suffix_len": n, "values": total, "structured_values": len(structured), "suffix_family_prefixes": p2, "suffix_family_suffixes": s2, "suffix_family_values": total2})
 	c.Set("request_shape_product", prod.Sizes)
 	c.Set("configurations", len(cfgs))
